@@ -27,8 +27,17 @@ VDIM_POOLS = [
     ["v0", "v1", "v2", "v3"],
     ["p", "q", "r2", "s_3"],
     ["z", "x", "y", "w"],
+    # accepted labels that are also the names of attributes removed from Field (their access prints a hint)
+    ["value", "average", "write", "project"],
 ]
 FIELD_UNITS = [None, "A/m", "T", "J/m3", "V"]
+SUBREGION_NAME_POOLS = [
+    ["sr_a", "sB", "r3"],
+    ["gr\u00f6\u00dfe", "layer_\u03b1", "\u78c1\u533a"],
+    ["\u00e4b", "\u00e4c", "\u00e4"],
+    ["free layer", "pinned-layer", "x.y"],
+    ["z", "a", "m"],  # definition order is not alphabetical
+]
 
 
 def dims_strategy(ndim, default_ok=True):
@@ -71,6 +80,9 @@ def geom(
             c = draw(st.integers(1, 3))
             off = draw(st.integers(-20, 20))
             lo, hi = off * c, off * c + n[d] * c
+            if draw(st.integers(0, 2)) == 0:
+                # integer-typed corners whose edge is NOT a multiple of the cell count: fractional cells and vertices
+                hi = lo + draw(st.integers(1, 12))
             p1.append(lo)
             p2.append(hi)
         e = 0
@@ -216,7 +228,10 @@ def build_mesh(g, bc="", subs=None, region=None):
 @st.composite
 def index_boxes(draw, n, max_boxes=3, min_boxes=0):
     k = draw(st.integers(min_boxes, max_boxes))
-    names = ["sr_a", "sB", "r3"]
+    # any string is accepted as a subregion name: mostly identifiers, now and then other scripts, blanks and punctuation,
+    # names of unequal length in bytes and characters
+    pick = ((draw(st.integers(0, 2**32)) + 0x5B) * 0x9E3779B97F4A7C15) % 2**64 >> 17 if k else 0
+    names = SUBREGION_NAME_POOLS[0] if pick % 4 else SUBREGION_NAME_POOLS[1 + (pick // 4) % (len(SUBREGION_NAME_POOLS) - 1)]
     out = []
     for j in range(k):
         lo, hi = [], []
